@@ -14,7 +14,12 @@ NumQ(gs) == IF gs = <<>> THEN 0 ELSE Max2(NumQ(Tail(gs)), GateTop(Head(gs)))
 \* Accumulations are written with FoldLeft (evaluated by TLC's Java module override on concrete values): a recursive
 \* operator whose lazily passed argument is referenced many times can be re-evaluated at every reference.
 ApplyWith(st, G, g, n) == [v |-> ApplyFast(st.v, G.m, G.e, g.tg, g.ctrl, n), e |-> st.e + G.e]
-ApplyG(st, g, n) == FoldLeft(LAMBDA acc, G : ApplyWith(acc, G, g, n), st, <<GateMat(g)>>)
+\* a measure gate [op |-> "measure", tg |-> ascending qubits, out |-> observed outcome index] projects onto the outcome
+\* (the vector is left unnormalised; the state it denotes is v / ||v||)
+KeepIdx(b, S, n) == FoldLeft(LAMBDA acc, q : IF q \in S THEN 2 * acc + QBit(b, q, n) ELSE acc, 0, [q \in 1..n |-> q])
+Project(v, S, o, n) == [r \in 1..2^n |-> IF KeepIdx(r - 1, S, n) = o THEN v[r] ELSE OZero]
+ApplyG(st, g, n) == IF g.op = "measure" THEN [v |-> Project(st.v, RangeOf(g.tg), g.out, n), e |-> st.e]
+                    ELSE FoldLeft(LAMBDA acc, G : ApplyWith(acc, G, g, n), st, <<GateMat(g)>>)
 Run(gs, st, n) == FoldLeft(LAMBDA acc, g : ApplyG(acc, g, n), st, gs)
 Base(n) == [v |-> BasisVec(n, 0), e |-> 0]
 MulEmb(R, G, g, n) == [m |-> OMatMul(Embedded(G.m, G.e, g.tg, g.ctrl, n), R.m), e |-> R.e + G.e]
